@@ -28,6 +28,21 @@ func pxErrOutcome(v ssa.Value, t *Term, st *pxState) string {
 	if _, mk := v.(*ssa.MakeInterface); mk {
 		return "err"
 	}
+	// library constructors that never return nil
+	isCtor := func(x ssa.Value) bool {
+		c, ok := x.(*ssa.Call)
+		if !ok || c.Call.StaticCallee() == nil {
+			return false
+		}
+		switch qualifiedFnName(c.Call.StaticCallee()) {
+		case "errors.New", "fmt.Errorf":
+			return true
+		}
+		return false
+	}
+	if isCtor(v) || (t != nil && t.K == TLeaf && t.V != nil && isCtor(t.V)) {
+		return "err"
+	}
 	if t != nil {
 		if t.K == TLeaf && t.key == "nil:error" {
 			return "nil"
